@@ -10,7 +10,7 @@
 From Coq Require Import String ZArith QArith Bool Arith List Permutation Sorted.
 From GT Require Import Base.UTree Spec.Obs Model.Reroot Spec.Unrooted
      Proofs.RerootBase Model.Matrix Proofs.MatrixWalk Proofs.MatrixCells Proofs.MatrixMain
-     Proofs.CutBase Proofs.CutSem Proofs.CutSpec.
+     Spec.Cut Proofs.CutBase Proofs.CutSem Proofs.CutSpec Proofs.CutPaths Judge.C14 Proofs.MatrixOracle.
 Import ListNotations.
 Local Close Scope Q_scope.
 
@@ -157,3 +157,39 @@ Example C14_example_cut :
   = [["a"; "b"]; ["c"]; ["d"]]%string.
 Proof. exact cut_example. Qed.
 Print Assumptions C14_example_cut.
+
+(** the property's wording.  [w_long maxlen] (Spec/Cut.v) gives 1 to a branch that is not
+    shorter than the threshold and 0 to a shorter one, so the specification's path sum between
+    two tips is the number of such branches on the path joining them: two tips are joined by a
+    path of branches all shorter than the threshold exactly when it is 0.  Two tips are in
+    the same bag of the cut exactly then (and, by C14_cut_is_the_partition, every tip is in
+    exactly one bag).  The run-time oracle checks the same statement on the bags returned by
+    the code ([bags_are_classes] in Spec/Cut.v), next to the union-find groups. *)
+Theorem C14_cut_same_bag_iff_joined_by_short_branches :
+  forall maxlen t, wf t = true -> 2 <= degree t -> NoDup (leaves t) ->
+    forall a b d, In (a, b, d) (pairdists (w_long maxlen) t) ->
+      ((d == 0)%Q <-> exists bag, In bag (cut maxlen t) /\ In a bag /\ In b bag).
+Proof. exact cut_classes. Qed.
+Print Assumptions C14_cut_same_bag_iff_joined_by_short_branches.
+
+Theorem C14_groups_are_classes :
+  forall maxlen t, wf t = true -> 2 <= degree t -> NoDup (leaves t) ->
+    forall a b d, In (a, b, d) (pairdists (w_long maxlen) t) ->
+      ((d == 0)%Q <-> exists g, In g (sgroups maxlen t false) /\ In a g /\ In b g).
+Proof. exact groups_are_classes. Qed.
+Print Assumptions C14_groups_are_classes.
+
+(** * the specification is complete, and the run-time oracle accepts the model *)
+(** every ordered pair of distinct leaves has a path sum *)
+Theorem C14_spec_complete :
+  forall w t a b, In a (leaves t) -> In b (leaves t) -> a <> b -> exists d, In (a, b, d) (pairdists w t).
+Proof. exact pairdists_complete. Qed.
+Print Assumptions C14_spec_complete.
+
+(** the boolean checks of the judge (rows = sorted tip names, every cell equal to the
+    specification's [dist_matrix], symmetric, zero diagonal) return no complaint on the
+    model's own output *)
+Theorem C14_oracle_accepts_model :
+  forall m t, good t -> matrix_oracle m t (fst (to_matrix m t)) (snd (to_matrix m t)) = None.
+Proof. exact matrix_oracle_accepts. Qed.
+Print Assumptions C14_oracle_accepts_model.
